@@ -9,4 +9,11 @@ EXTRA = {
     # Props/C02Float.v, Props/C05Float.v: the note-off and action due tests generated from the source
     "C02": (("gen_tables_time.py",), ()),
     "C05": (("gen_tables_time.py",), ()),
+    # the pattern engine: method bodies of the pattern classes translated from the source text (Generated/TablesStep.v),
+    # tied to Pat/Step.v in Pat/StepSrc.v (Props/C10Src.v; docs/TRANSLATOR.md)
+    "C04": (("gen_tables_step.py",), ()),
+    "C08": (("gen_tables_step.py",), ()),
+    "C09": (("gen_tables_step.py",), ()),
+    "C10": (("gen_tables_step.py",), ()),
+    "C12": (("gen_tables_step.py",), ()),
 }
